@@ -74,6 +74,16 @@ func init() {
 	// R': the same with a lease-based read (the reply renews the lease).
 	regScenario(&sched.Scenario{Name: "lease-newleader", Cfg: sim.Config{Voters: 3}, Monitors: safetyMonitors, Prefix: newLeader,
 		Steps: [][]sim.Event{sim.MustParse("lease n1"), sim.MustParse("rt 1>2:AE#0"), sim.MustParse("beat n1"), sim.MustParse("rt 1>2:AE#1"), sim.MustParse("beat n1"), sim.MustParse("rt 1>2:AE#2")}})
+	// G: goroutine schedules of ordinary replication and of a contested election
+	// (safety monitors of C01-C08 on every schedule within the bound)
+	regScenario(&sched.Scenario{Name: "sched-rep3", Cfg: sim.Config{Voters: 3}, Monitors: safetyMonitors, Prefix: seedLeader3,
+		Steps: [][]sim.Event{sim.MustParse("write n0", "write n0"), sim.MustParse("deliver 0>1:AE#2", "deliver 0>2:AE#3"), sim.MustParse("reply 0>1:AE#2", "reply 0>2:AE#3", "write n0"),
+			sim.MustParse("deliver 0>1:AE#3", "deliver 0>2:AE#2", "read n0"), sim.MustParse("reply 0>1:AE#3", "reply 0>2:AE#2", "beat n0"), sim.MustParse("flush"),
+			sim.MustParse("crash n0"), sim.MustParse("timeout n1"), sim.MustParse("rt 1>2:RV#0 a=2"), sim.MustParse("rt 1>2:RV#1"), sim.MustParse("rt 1>2:AE#0", "write n1"), sim.MustParse("restart n0"), sim.MustParse("flush")}})
+	regScenario(&sched.Scenario{Name: "sched-elect3", Cfg: sim.Config{Voters: 3}, Monitors: safetyMonitors,
+		Steps: [][]sim.Event{sim.MustParse("timeout n0", "timeout n1"), sim.MustParse("deliver 0>2:RV#0 a=2", "deliver 1>2:RV#0 a=2"), sim.MustParse("reply 0>2:RV#0", "reply 1>2:RV#0"),
+			sim.MustParse("deliver 0>2:RV#1", "deliver 1>2:RV#1"), sim.MustParse("reply 0>2:RV#1", "reply 1>2:RV#1"),
+			sim.MustParse("flush"), sim.MustParse("write n0", "write n1"), sim.MustParse("flush"), sim.MustParse("timeout n2"), sim.MustParse("flush")}})
 	checks["C10"] = func(prop, tier string) int {
 		pl := []schedPlan{{"snap1-seq", 3, 90}, {"snap1-par", 2, 60}, {"snap1-big", 2, 60}, {"inst3-restore", 3, 90}, {"inst3-compact", 3, 90}}
 		if tier == "thorough" {
@@ -271,7 +281,7 @@ func runSchedPlans(prop string, plans []schedPlan, rep *common.Report, reported 
 	}
 	cov := map[string]any{
 		"evaluations": total, "distinct_nontrivial": preempting,
-		"rule":    "every schedule of each scenario whose number of non-default scheduling decisions is within the bound (iterated 0..bound); decisions are taken at every lock, unlock, condition signal and goroutine start of the library; non-trivial = executions with at least one non-default decision (each is a distinct decision sequence by construction)",
+		"rule":    "every schedule of each scenario whose number of non-default scheduling decisions is within the bound (iterated 0..bound); decisions are taken at every lock, unlock, condition wait and signal of the library (a started goroutine becomes schedulable at once; starting it is not itself a decision point); non-trivial = executions with at least one non-default decision (each is a distinct decision sequence by construction)",
 		"samples": samples, "scenarios": perScenario, "exhaustive": exhaustive, "distinct_final_states": len(outcomes),
 	}
 	if len(samples) == 0 {
@@ -316,8 +326,11 @@ func sched1() {
 	if os.Getenv("VERIF_TRACE") != "" {
 		vsched.Trace = func(t *vsched.Task, why string) { fmt.Printf("  run %s (%s)\n", t.String(), why) }
 	}
+	if os.Getenv("VERIF_DUMP") != "" {
+		sched.Debug = func(c *sim.Cluster) { fmt.Print(c.Dump()) }
+	}
 	o := sched.RunOnce(sc, ch)
-	fmt.Printf("points=%d steps=%d final=%s diverged=%q\n", len(o.Points), o.Steps, o.Final, o.Diverged)
+	fmt.Printf("points=%d steps=%d final=%s diverged=%q skipped=%q\n", len(o.Points), o.Steps, o.Final, o.Diverged, o.Skipped)
 	fmt.Printf("alternatives=%v\n", o.Alternatives())
 	for _, v := range o.Violations {
 		fmt.Println("VIOLATION", v.Property, v.Signature, v.Detail)
